@@ -53,6 +53,24 @@ fn main() {
         println!("VIOLATION property=C14 replay={}", path.display());
         std::process::exit(1);
     }
+    if args[1] == "gen-corpus" && args.len() >= 4 {
+        // deterministic pseudo-random seed files for a fuzz campaign
+        let n: usize = args[3].parse().unwrap_or(8);
+        let _ = std::fs::create_dir_all(&args[2]);
+        let mut x = seed.wrapping_mul(0x9E3779B97F4A7C15) | 1;
+        for i in 0..n {
+            let len = 64 + (i * 193) % 1500;
+            let mut v = Vec::with_capacity(len);
+            for _ in 0..len {
+                x ^= x << 13;
+                x ^= x >> 7;
+                x ^= x << 17;
+                v.push((x >> 32) as u8);
+            }
+            let _ = std::fs::write(Path::new(&args[2]).join(format!("seed{}", i)), v);
+        }
+        return;
+    }
     if args[1] == "selftest" {
         std::process::exit(vh::selftest::run(seed));
     }
@@ -60,6 +78,13 @@ fn main() {
         eprintln!("unknown property {}", args[1]);
         std::process::exit(2);
     };
+    if args.len() >= 4 && args[2] == "--fuzz-artifact" {
+        std::process::exit(run::fuzz_artifact(check.as_ref(), Path::new(&args[3]), seed));
+    }
+    if args.len() >= 4 && args[2] == "--add-fuzz-evidence" {
+        run::add_fuzz_evidence(check.as_ref(), &args[3]);
+        return;
+    }
     if args.len() >= 4 && args[2] == "--replay" {
         std::process::exit(run::replay_file(check.as_ref(), Path::new(&args[3])));
     }
